@@ -138,7 +138,7 @@ func C08(c *hx.Ctx) {
 	c.DesignCheck(tlc.Opts{Module: "Lzma2Writer", Cfg: "Lzma2Writer_mc.cfg", Timeout: 3 * time.Minute}, []string{"BeginWrite", "BeginFlush", "BeginClose", "EmitChunk", "EndWrite", "EndFlush", "EndClose"})
 	configTable(c, "lzma2")
 	small := map[string]int{"W0": 0, "W1": 0, "W273": 0, "W4Kz": 0, "F": 0, "C": 0}
-	big := map[string]int{"W0": 0, "W1": 0, "W4K": 0, "W70Kr": 2, "W70Kt": 2, "W140Kn": 2, "W80Krr": 2, "W2M": 3, "F": 0, "C": 0}
+	big := map[string]int{"W0": 0, "W1": 0, "W4K": 0, "W70Kr": 2, "W70Kt": 2, "W140Kn": 2, "W80Krr": 2, "W2M": 3, "W5Mrz": 3, "F": 0, "C": 0}
 	hs := genHistories(c, tokenSet(small), c.Pick(5, 6), 0, 2)
 	hb := genHistories(c, tokenSet(big), c.Pick(5, 6), c.Pick(3, 5), 1)
 	if len(hs) == 0 || len(hb) == 0 {
@@ -170,6 +170,11 @@ func C08(c *hx.Ctx) {
 			}
 			break
 		}
+	}
+	// bulk noise: many chunks that end at the compressed-size limit and are stored raw (rare
+	// coincidences between the operation pending at the limit and the rolled-back coder state)
+	for k := 0; k < c.Pick(16, 64); k++ {
+		jobs = append(jobs, job{cfgs[[]int{2, 4, 5}[k%3]], histCase{Hist: []string{"W4Mr", "C"}, Expect: []string{"ok", "ok"}}, c.Seed + 7000 + int64(k)})
 	}
 	c.Logf("%d small histories, %d big histories, %d jobs", len(hs), len(hb), len(jobs))
 	var mu sync.Mutex
